@@ -29,7 +29,9 @@ use scylla::cluster::metadata::Strategy;
 use scylla::cluster::{ClusterState, Node};
 use scylla::frame::response::result::TableSpec;
 use scylla::routing::Token;
-use scylla::verif_hooks::cluster::{KeyspaceSpec, NodeSpec, cluster_from_topology_with_tablets, cluster_refresh};
+use scylla::verif_hooks::cluster::{
+    KeyspaceSpec, NodeSpec, cluster_from_topology_with_tablets_and_views, cluster_refresh_topology, cluster_refresh_with_views,
+};
 use scylla::verif_hooks::tablets::{TabletView, VerifTablets, raw_tablet_from_payload};
 use std::sync::Arc;
 use std::collections::HashMap;
@@ -422,26 +424,28 @@ impl Runner {
                 if parts.len() != 3 {
                     return None;
                 }
-                let mut kss: Vec<(String, bool, Vec<String>)> = Vec::new();
+                // keyspace = `<name>:<0|1>:<tables>[:<views>]`
+                let mut kss: Vec<(String, bool, Vec<String>, Vec<String>)> = Vec::new();
                 if !parts[0].is_empty() && parts[0] != "-" {
                     for k in parts[0].split('&') {
                         let f: Vec<&str> = k.split(':').collect();
-                        if f.len() != 3 || (f[1] != "0" && f[1] != "1") {
+                        if (f.len() != 3 && f.len() != 4) || (f[1] != "0" && f[1] != "1") {
                             return None;
                         }
-                        let tables = if f[2].is_empty() { vec![] } else { f[2].split('+').map(|s| s.to_owned()).collect() };
-                        kss.push((f[0].to_owned(), f[1] == "1", tables));
+                        let names = |s: &str| -> Vec<String> { if s.is_empty() { vec![] } else { s.split('+').map(|s| s.to_owned()).collect() } };
+                        kss.push((f[0].to_owned(), f[1] == "1", names(f[2]), if f.len() == 4 { names(f[3]) } else { vec![] }));
                     }
                 }
                 let removed = parse_ids(parts[1])?;
                 let recreated = parse_recreated(parts[2])?;
                 self.shadow_topology(&removed, &recreated);
                 // expected table set (a repeated keyspace name: the last entry wins, as in a HashMap)
-                let ksmap: HashMap<&str, (bool, &Vec<String>)> = kss.iter().map(|(n, b, t)| (n.as_str(), (*b, t))).collect();
-                self.sh.info.retain(|(k, t), _| ksmap.get(k.as_str()).map(|(b, ts)| *b && ts.contains(t)).unwrap_or(false));
-                for (k, (b, ts)) in &ksmap {
+                // tables AND materialized views of a tablet keyspace are kept / get an empty entry
+                let ksmap: HashMap<&str, (bool, &Vec<String>, &Vec<String>)> = kss.iter().map(|(n, b, t, v)| (n.as_str(), (*b, t, v))).collect();
+                self.sh.info.retain(|(k, t), _| ksmap.get(k.as_str()).map(|(b, ts, vs)| *b && (ts.contains(t) || vs.contains(t))).unwrap_or(false));
+                for (k, (b, ts, vs)) in &ksmap {
                     if *b {
-                        for t in ts.iter() {
+                        for t in ts.iter().chain(vs.iter()) {
                             self.sh.info.entry((k.to_string(), t.clone())).or_default();
                         }
                     }
@@ -451,7 +455,7 @@ impl Runner {
                 }
                 let ru: Vec<Uuid> = removed.iter().map(|i| uuid_of(*i)).collect();
                 let rc: Vec<(Uuid, Option<String>)> = recreated.iter().map(|(i, d)| (uuid_of(*i), d.clone())).collect();
-                self.vt.info_maintenance(&kss, &ru, &rc);
+                self.vt.info_maintenance_with_views(&kss, &ru, &rc);
                 self.check_info(ctx);
                 let (u, st) = self.vt.info_counters();
                 if u != 0 {
@@ -800,15 +804,47 @@ fn parse_cs_peers(s: &str) -> Option<Vec<CsPeer>> {
     Some(v)
 }
 
+/// the schema part of a refresh: is `k0` there, is it tablet-based, which of `t0`/`t1` are its tables / views
+#[derive(Clone, Debug, PartialEq, Eq)]
+enum CsSchema {
+    Absent,
+    NotTablet,
+    Tablet(Vec<String>, Vec<String>),
+}
+
+fn parse_cs_schema(s: Option<&str>) -> Option<CsSchema> {
+    match s {
+        None => Some(CsSchema::Tablet(vec!["t0".into(), "t1".into()], vec![])),
+        Some("x") => Some(CsSchema::Absent),
+        Some("-") => Some(CsSchema::NotTablet),
+        Some(cfg) => {
+            let (t, v) = cfg.split_once('/')?;
+            if v.contains('/') {
+                return None;
+            }
+            let names = |s: &str| -> Vec<String> { if s.is_empty() { vec![] } else { s.split('+').map(|x| x.to_owned()).collect() } };
+            let (t, v) = (names(t), names(v));
+            if t.iter().chain(v.iter()).any(|n| n != "t0" && n != "t1") {
+                return None;
+            }
+            Some(CsSchema::Tablet(t, v))
+        }
+    }
+}
+
 struct CsRunner {
     cs: Option<ClusterState>,
     peers: Vec<CsPeer>,
+    schema: CsSchema,
     nodes: HashMap<u32, Option<String>>,
     tables: [TableShadow; 2],
+    /// is the table in the tablet map (shadow)
+    present: [bool; 2],
 }
 
 impl CsRunner {
-    fn specs(peers: &[CsPeer]) -> (Vec<NodeSpec>, Vec<KeyspaceSpec>, HashMap<String, Vec<String>>) {
+    #[allow(clippy::type_complexity)]
+    fn specs(peers: &[CsPeer], schema: &CsSchema) -> (Vec<NodeSpec>, Vec<KeyspaceSpec>, HashMap<String, Vec<String>>, HashMap<String, Vec<String>>) {
         let nodes = peers
             .iter()
             .map(|p| NodeSpec {
@@ -820,10 +856,82 @@ impl CsRunner {
                 connected: true,
             })
             .collect();
-        let ks = vec![KeyspaceSpec { name: "k0".to_owned(), strategy: Strategy::SimpleStrategy { replication_factor: 1 } }];
+        let mut ks = Vec::new();
         let mut tt = HashMap::new();
-        tt.insert("k0".to_owned(), vec!["t0".to_owned(), "t1".to_owned()]);
-        (nodes, ks, tt)
+        let mut tv = HashMap::new();
+        match schema {
+            CsSchema::Absent => {}
+            CsSchema::NotTablet => ks.push(KeyspaceSpec { name: "k0".to_owned(), strategy: Strategy::SimpleStrategy { replication_factor: 1 } }),
+            CsSchema::Tablet(t, v) => {
+                ks.push(KeyspaceSpec { name: "k0".to_owned(), strategy: Strategy::SimpleStrategy { replication_factor: 1 } });
+                tt.insert("k0".to_owned(), t.clone());
+                if !v.is_empty() {
+                    tv.insert("k0".to_owned(), v.clone());
+                }
+            }
+        }
+        (nodes, ks, tt, tv)
+    }
+
+    /// is table `t<t>` in the real tablet map
+    fn has_table(&self, t: usize) -> bool {
+        let name = format!("t{}", t);
+        self.cs.as_ref().is_some_and(|cs| cs.verif_tablet_tables().iter().any(|(k, n, _)| k == "k0" && *n == name))
+    }
+
+    /// one refresh (`topology_only`: `new_with_updated_topology`, the schema stays); output: node objects kept, table sizes
+    fn refresh(&mut self, peers: Vec<CsPeer>, schema: CsSchema, topology_only: bool, ctx: &mut Ctx) -> String {
+        let (nodes, ks, tt, tv) = Self::specs(&peers, &schema);
+        let before: Vec<(u32, Arc<Node>)> = match &self.cs {
+            None => vec![],
+            Some(cs) => self.peers.iter().filter_map(|p| cs.get_node_by_host_id(uuid_of(p.id)).map(|n| (p.id, Arc::clone(n)))).collect(),
+        };
+        let new_cs = RT.with(|rt| {
+            rt.block_on(async {
+                match &self.cs {
+                    None => cluster_from_topology_with_tablets_and_views(&nodes, &ks, &tt, &tv).await,
+                    Some(prev) if topology_only => cluster_refresh_topology(prev, &nodes).await,
+                    Some(prev) => cluster_refresh_with_views(prev, &nodes, &ks, &tt, &tv).await,
+                }
+            })
+        });
+        let mut kept: Vec<u32> = before
+            .iter()
+            .filter(|(id, n)| new_cs.get_node_by_host_id(uuid_of(*id)).is_some_and(|m| Arc::ptr_eq(m, n)))
+            .map(|(id, _)| *id)
+            .collect();
+        kept.sort();
+        // the shadow: tables that are no longer tables / views of a tablet keyspace are forgotten, the others exist
+        for t in 0..2 {
+            let name = format!("t{}", t);
+            let keep = matches!(&schema, CsSchema::Tablet(ts, vs) if ts.contains(&name) || vs.contains(&name));
+            if !keep {
+                self.tables[t] = TableShadow::default();
+            }
+            self.present[t] = keep;
+        }
+        // hosts that left, hosts now known
+        let removed: Vec<u32> = self.peers.iter().map(|p| p.id).filter(|id| !peers.iter().any(|q| q.id == *id)).collect();
+        self.nodes = peers.iter().map(|p| (p.id, p.dc.clone())).collect();
+        for t in self.tables.iter_mut() {
+            t.maintenance(&removed, &self.nodes);
+        }
+        self.peers = peers;
+        self.schema = schema;
+        self.cs = Some(new_cs);
+        let sizes = self.cs.as_ref().unwrap().verif_tablet_tables();
+        let want: Vec<(String, String, usize)> = (0..2)
+            .filter(|t| self.present[*t])
+            .map(|t| ("k0".to_owned(), format!("t{}", t), self.tables[t].entries.iter().filter(|e| e.alive).count()))
+            .collect();
+        if sizes != want {
+            ctx.fail(format!("after the refresh the tablet map holds {:?}, the tables / views of tablet keyspaces with their still valid tablets are {:?}", sizes, want));
+        }
+        format!(
+            "{}|{}",
+            crate::util::nat_list(&kept),
+            if sizes.is_empty() { "-".to_owned() } else { sizes.iter().map(|(k, t, n)| format!("{}.{}:{}", k, t, n)).collect::<Vec<_>>().join("+") }
+        )
     }
 
     fn answer(&self, t: usize, tok: i64, dc: Option<&str>) -> Vec<(u32, u32, bool)> {
@@ -870,6 +978,12 @@ impl CsRunner {
     /// every token at or next to an end of any range ever learnt
     fn check_all(&self, ctx: &mut Ctx) {
         for t in 0..2 {
+            if self.present[t] != self.has_table(t) {
+                ctx.fail(format!("table t{} {} in the tablet map", t, if self.present[t] { "should be but is not" } else { "should not be but is" }));
+            }
+            if !self.has_table(t) {
+                continue;
+            }
             let mut toks: Vec<i64> = Vec::new();
             for e in &self.tables[t].entries {
                 for x in [e.first, e.last] {
@@ -889,37 +1003,23 @@ impl CsRunner {
         let arg = &op[c.len_utf8()..];
         let out = match c {
             'P' => {
-                let peers = parse_cs_peers(arg)?;
-                let (nodes, ks, tt) = Self::specs(&peers);
-                let before: Vec<(u32, Arc<Node>)> = match &self.cs {
-                    None => vec![],
-                    Some(cs) => {
-                        self.peers.iter().filter_map(|p| cs.get_node_by_host_id(uuid_of(p.id)).map(|n| (p.id, Arc::clone(n)))).collect()
+                let (ps, schema) = match arg.split_once('!') {
+                    None => (arg, parse_cs_schema(None)?),
+                    Some((a, b)) => {
+                        if b.contains('!') {
+                            return None;
+                        }
+                        (a, parse_cs_schema(Some(b))?)
                     }
                 };
-                let new_cs = RT.with(|rt| {
-                    rt.block_on(async {
-                        match &self.cs {
-                            None => cluster_from_topology_with_tablets(&nodes, &ks, &tt).await,
-                            Some(prev) => cluster_refresh(prev, &nodes, &ks, &tt).await,
-                        }
-                    })
-                });
-                let mut kept: Vec<u32> = before
-                    .iter()
-                    .filter(|(id, n)| new_cs.get_node_by_host_id(uuid_of(*id)).is_some_and(|m| Arc::ptr_eq(m, n)))
-                    .map(|(id, _)| *id)
-                    .collect();
-                kept.sort();
-                // the shadow: hosts that left, hosts now known
-                let removed: Vec<u32> = self.peers.iter().map(|p| p.id).filter(|id| !peers.iter().any(|q| q.id == *id)).collect();
-                self.nodes = peers.iter().map(|p| (p.id, p.dc.clone())).collect();
-                for t in self.tables.iter_mut() {
-                    t.maintenance(&removed, &self.nodes);
-                }
-                self.peers = peers;
-                self.cs = Some(new_cs);
-                format!("P{}", crate::util::nat_list(&kept))
+                let peers = parse_cs_peers(ps)?;
+                format!("P{}", self.refresh(peers, schema, false, ctx))
+            }
+            'N' => {
+                self.cs.as_ref()?;
+                let peers = parse_cs_peers(arg)?;
+                let schema = self.schema.clone();
+                format!("N{}", self.refresh(peers, schema, true, ctx))
             }
             'L' | 'B' => {
                 // `L`: a batch of one; `B`: ONE `update_tablets` call with the whole `|`-separated batch
@@ -950,6 +1050,7 @@ impl CsRunner {
                 // the shadow: tablet by tablet, in the order of the batch (a later tablet wins over an earlier one)
                 for (t, f, l, r) in &batch {
                     self.tables[*t].insert(token_new(*f), token_new(*l), r, &self.nodes);
+                    self.present[*t] = true;
                 }
                 c.to_string()
             }
@@ -969,7 +1070,12 @@ impl CsRunner {
                 if !(lo <= hi && (hi as i128 - lo as i128) <= 64) {
                     return None;
                 }
-                (lo..=hi).map(|tok| show_reps(&self.check_answer(t, tok, ctx))).collect::<Vec<_>>().join("/")
+                if !self.has_table(t) {
+                    // not a table of the tablet map: the locator falls back to the token ring (not this property)
+                    "notable".to_owned()
+                } else {
+                    (lo..=hi).map(|tok| show_reps(&self.check_answer(t, tok, ctx))).collect::<Vec<_>>().join("/")
+                }
             }
             'd' => {
                 self.cs.as_ref()?;
@@ -984,6 +1090,10 @@ impl CsRunner {
                     _ => return None,
                 };
                 let tok: i64 = tok.parse().ok()?;
+                if !self.has_table(t) {
+                    self.check_all(ctx);
+                    return Some("notable".to_owned());
+                }
                 let got: Vec<(u32, u32)> = self.answer(t, tok, Some(dc)).into_iter().map(|(i, s, _)| (i, s)).collect();
                 let want: Vec<(u32, u32)> = self
                     .check_answer(t, tok, ctx)
@@ -1010,7 +1120,14 @@ impl CsRunner {
 }
 
 fn run_cs(ops: &str, ctx: &mut Ctx) -> String {
-    let mut r = CsRunner { cs: None, peers: vec![], nodes: HashMap::new(), tables: [TableShadow::default(), TableShadow::default()] };
+    let mut r = CsRunner {
+        cs: None,
+        peers: vec![],
+        schema: CsSchema::Absent,
+        nodes: HashMap::new(),
+        tables: [TableShadow::default(), TableShadow::default()],
+        present: [false, false],
+    };
     let mut outs = Vec::new();
     for op in ops.split(';').filter(|o| !o.is_empty()) {
         match r.op(op, ctx) {
@@ -1197,8 +1314,22 @@ fn info_history(rng: &mut Rng, len: usize) -> String {
                 let mut ks_items: Vec<String> = Vec::new();
                 for k in kss.iter() {
                     if rng.chance(3, 4) {
-                        let tables: Vec<&str> = tbs.iter().copied().filter(|_| rng.chance(2, 3)).collect();
-                        ks_items.push(format!("{}:{}:{}", k, if rng.chance(3, 4) { 1 } else { 0 }, tables.join("+")));
+                        // each name: a table, a materialized view, or gone
+                        let mut tables: Vec<&str> = Vec::new();
+                        let mut views: Vec<&str> = Vec::new();
+                        for n in tbs.iter() {
+                            match rng.below(6) {
+                                0 | 1 | 2 => tables.push(n),
+                                3 | 4 => views.push(n),
+                                _ => {}
+                            }
+                        }
+                        let flag = if rng.chance(3, 4) { 1 } else { 0 };
+                        if views.is_empty() && rng.bool() {
+                            ks_items.push(format!("{}:{}:{}", k, flag, tables.join("+")));
+                        } else {
+                            ks_items.push(format!("{}:{}:{}:{}", k, flag, tables.join("+"), views.join("+")));
+                        }
                     }
                 }
                 if rng.chance(1, 10) && !ks_items.is_empty() {
@@ -1432,12 +1563,34 @@ fn cs_history(rng: &mut Rng, len: usize) -> String {
         }
     }
     let mut ops = vec![format!("P{}", fmt_cs_peers(&peers))];
+    // token universe: small (every relation often) or the i64 boundary pool
+    let pool: Option<Vec<i64>> = if rng.chance(1, 3) { Some(token_pool(rng)) } else { None };
     let universe = 12 + rng.below(12) as i64;
+    let pick_range = |rng: &mut Rng| -> (i64, i64) {
+        match &pool {
+            Some(p) => gen_range(rng, p),
+            None => {
+                let a = rng.range(0, universe);
+                (a, (a + match rng.below(3) { 0 => 0, 1 => rng.range(0, 3), _ => rng.range(0, universe) }).min(universe))
+            }
+        }
+    };
+    let scan_op = |rng: &mut Rng, t: u64, last: (i64, i64)| -> String {
+        match &pool {
+            Some(p) => {
+                let c = match rng.below(3) { 0 => last.0, 1 => last.1, _ => *rng.pick(p) };
+                let lo = c.saturating_sub(rng.range(0, 3)).min(i64::MAX - 6);
+                format!("s{}:{}:{}", t, lo, lo + rng.range(0, 6))
+            }
+            None => format!("s{}:-1:{}", t, universe + 1),
+        }
+    };
+    let mut last_range = (0i64, 0i64);
     while ops.len() < len {
         match rng.below(100) {
             0..=32 => {
-                let a = rng.range(0, universe);
-                let b = (a + match rng.below(3) { 0 => 0, 1 => rng.range(0, 3), _ => rng.range(0, universe) }).min(universe);
+                let (a, b) = pick_range(rng);
+                last_range = (a, b);
                 // replicas: mostly current peers, sometimes a host not (yet) known
                 let n = 1 + rng.below(3);
                 let reps: Vec<String> = (0..n)
@@ -1463,15 +1616,16 @@ fn cs_history(rng: &mut Rng, len: usize) -> String {
                             // a range overlapping an earlier one of the batch
                             2 => {
                                 let a = rng.range(prev.1, prev.2);
-                                (prev.0, a, (a + rng.range(0, 4)).min(universe))
+                                (prev.0, a, if pool.is_some() { a.saturating_add(rng.range(0, 4)) } else { (a + rng.range(0, 4)).min(universe) })
                             }
                             // the same range in the other table
                             _ => (1 - prev.0, prev.1, prev.2),
                         }
                     } else {
-                        let a = rng.range(0, universe);
-                        (rng.below(2), a, (a + rng.range(0, 5)).min(universe))
+                        let (a, b) = pick_range(rng);
+                        (rng.below(2), a, b)
                     };
+                    last_range = (a, b);
                     items.push((t, a, b));
                     let k = 1 + rng.below(3);
                     let reps: Vec<String> = (0..k)
@@ -1489,22 +1643,42 @@ fn cs_history(rng: &mut Rng, len: usize) -> String {
                 }
                 ops.push(format!("B{}", out.join("|")));
                 if rng.chance(1, 2) {
-                    ops.push(format!("s{}:0:{}", rng.below(2), universe));
+                    let t = rng.below(2);
+                    ops.push(scan_op(rng, t, last_range));
                 }
             }
             57..=69 => {
                 gen_refresh(rng, &mut peers, max_id);
-                ops.push(format!("P{}", fmt_cs_peers(&peers)));
+                match rng.below(10) {
+                    // `new_with_updated_topology`: peers only
+                    0 | 1 => ops.push(format!("N{}", fmt_cs_peers(&peers))),
+                    // the schema changes: keyspace dropped / no longer tablet-based / a table dropped / a table becomes a view
+                    2 | 3 | 4 => {
+                        let cfg = *rng.pick(&["x", "-", "t0/", "t1/", "/", "t0/t1", "t1/t0", "/t0+t1", "t0+t1/"]);
+                        ops.push(format!("P{}!{}", fmt_cs_peers(&peers), cfg));
+                    }
+                    _ => ops.push(format!("P{}", fmt_cs_peers(&peers))),
+                }
                 if rng.chance(2, 3) {
-                    ops.push(format!("s{}:0:{}", rng.below(2), universe));
+                    let t = rng.below(2);
+                    ops.push(scan_op(rng, t, last_range));
                 }
             }
-            70..=84 => ops.push(format!("s{}:-1:{}", rng.below(2), universe + 1)),
-            _ => ops.push(format!("d{}:{}@{}", rng.below(2), rng.range(0, universe), rng.pick(&DCS))),
+            70..=84 => {
+                let t = rng.below(2);
+                ops.push(scan_op(rng, t, last_range));
+            }
+            _ => {
+                let tok = match &pool {
+                    Some(p) => if rng.bool() { last_range.0 } else { *rng.pick(p) },
+                    None => rng.range(0, universe),
+                };
+                ops.push(format!("d{}:{}@{}", rng.below(2), tok, rng.pick(&DCS)));
+            }
         }
     }
-    ops.push(format!("s0:0:{}", universe));
-    ops.push(format!("s1:0:{}", universe));
+    ops.push(scan_op(rng, 0, last_range));
+    ops.push(scan_op(rng, 1, last_range));
     format!("cs {}", ops.join(";"))
 }
 
